@@ -13,7 +13,7 @@ Representations (mirrors of the Coq types)
   prog : {(t, codeid): body}  (missing: the default body  return x)
   op   : ("run", tm) | ("edit", t, c) | ("bump", t, c) | ("revert", t, k) | ("rewrite", p, s)
   val  : ("num", n) | ("err", x) | ("file", p, s) | ("pair", a, b)
-  expr : ("val", v) | ("call", t, a) | ("pair", a, b) | ("get", i, a) | ("catch", e, r)
+  expr : ("val", v) | ("call", t, a) | ("pair", a, b) | ("get", i, a) | ("catch", e, r, c)
 """
 from __future__ import annotations
 
@@ -164,7 +164,7 @@ class Mirror:
             return ("get", t[1], a)
         if k == "catch":
             a = self.eval_tm(arg, t[1])
-            return None if a is None else ("catch", a, t[2])
+            return None if a is None else ("catch", a, t[2], self.env(t[2]))
         raise ValueError(t)
 
     def eval_imm(self, arg, i):
@@ -206,7 +206,7 @@ class Mirror:
             return self.valid(e[1]) and self.valid(e[2])
         if k == "get":
             return self.valid(e[2]) if self.pv else True
-        return self.valid(e[1])
+        return self.valid(e[1]) and (e[3] % 2 == 1 or self.env(e[2]) == e[3])
 
     @staticmethod
     def lazy(e):
@@ -262,7 +262,7 @@ class Mirror:
             return self.eval(o[1])
         if k == "catch":
             e0, r = e[1], e[2]
-            key = ("C", e0, r, self.env(r))
+            key = ("C", e0, r, e[3])
 
             def recover(x):
                 if x == TYPEERR:
@@ -304,9 +304,9 @@ class Mirror:
             return (res, list(self.log)), info
         if k in ("edit", "bump"):
             c = 2 * o[2] + (1 if k == "bump" else 0)
-            self.codes[o[1]] = [c] + self.codes.get(o[1], [])
+            self.codes[o[1]] = [c] + self.codes.get(o[1], [0])
         elif k == "revert":
-            l = self.codes.get(o[1], [])
+            l = self.codes.get(o[1], [0])
             c = l[o[2]] if o[2] < len(l) else self.env(o[1])
             self.codes[o[1]] = [c] + l
         elif k == "rewrite":
@@ -601,7 +601,7 @@ class World:
         from harness.progs.c02_errs import PErr, err
         body = self.prog.get((t, codeid), DEFAULT_BODY)
         src = py_source(t, codeid, body)
-        ns = {"RT": RT, "catch": catch, "PErr": PErr, "err": err}
+        ns = {"RT": RT, "catch": catch, "PErr": PErr, "err": err, "__name__": __name__}
         exec(src, ns)
         if codeid % 2 == 0:
             self.tasks[t] = task(name=f"t{t}", namespace=NSNAME, source=src)(ns[f"t{t}"])
